@@ -9,6 +9,7 @@ import Std.Data.HashSet
 import FBV.Drv.T1
 import FBV.Drv.DF
 import FBV.Drv.ES
+import FBV.Drv.AD
 open FBV FBV.Wire
 
 structure Tally where
@@ -31,6 +32,12 @@ def checkLine (oc : Bool) (line : String) : Option (List String × String) :=
     (FBV.DrvES.checkES pre post).map fun (v, nt) => (v, if nt then "es_nontrivial" else "es_trivial")
   | [("EB" :: pre), p1, p2] =>
     (FBV.DrvES.checkEB pre p1 p2).map fun (v, nt) => (v, if nt then "eb_nontrivial" else "eb_trivial")
+  | [("CH" :: pre), impl, std] =>
+    (FBV.DrvAD.checkCH pre impl std).map fun (v, nt) => (v, if nt then "ch_nontrivial" else "ch_trivial")
+  | [("CB" :: pre), impl, std] =>
+    (FBV.DrvAD.checkCB pre impl std).map fun (v, nt) => (v, if nt then "cb_nontrivial" else "cb_trivial")
+  | [("TK" :: pre), impl, std] =>
+    (FBV.DrvAD.checkTK oc pre impl std).map fun (v, nt) => (v, if nt then "tk_nontrivial" else "tk_trivial")
   | [("T0" :: pre), post] => (FBV.DrvT1.checkT0 pre post).map fun v => (v, "t0")
   | _ => none
 
